@@ -34,13 +34,20 @@ func evalSm4mode(args []string) string {
 		spare, _ = strconv.Atoi(args[5])
 	}
 	enc := args[1] == "1"
-	if err := sm4.SetIV(append([]byte{}, iv...)); err != nil {
+	// key and IV are handed over as slices with spare capacity behind them too (SetIV keeps the caller's slice):
+	// nothing behind any of the three inputs may be written
+	ivBuf := bytes.Repeat([]byte{0xd7}, len(iv)+len(in)+80)
+	copy(ivBuf, iv)
+	if err := sm4.SetIV(ivBuf[:len(iv)]); err != nil {
 		return "bad-op"
 	}
 	buf := bytes.Repeat([]byte{0xc5}, len(in)+spare)
 	copy(buf, in)
 	inSlice := buf[:len(in)]
-	keyCopy := append([]byte{}, key...)
+	keyBuf := bytes.Repeat([]byte{0xe9}, len(key)+len(in)+80)
+	copy(keyBuf, key)
+	keyCopy := keyBuf[:len(key)]
+	defer sm4.SetIV(make([]byte, 16))
 	var out []byte
 	var err error
 	switch args[0] {
@@ -61,6 +68,16 @@ func evalSm4mode(args []string) string {
 	for _, c := range buf[len(in):] {
 		if c != 0xc5 {
 			return "ORACLE-FAIL:spare-capacity-written"
+		}
+	}
+	for _, c := range ivBuf[len(iv):] {
+		if c != 0xd7 {
+			return "ORACLE-FAIL:memory-behind-iv-written"
+		}
+	}
+	for _, c := range keyBuf[len(key):] {
+		if c != 0xe9 {
+			return "ORACLE-FAIL:memory-behind-key-written"
 		}
 	}
 	if err != nil {
